@@ -109,7 +109,7 @@ def run(ctx, col, tier):
              "loop over rows in storage order reads, at the row's parent, an array it fills in that "
              "loop; zero expected, positive examples kept", floor=1)
     col.rule("R-COMPOSE", "a pipeline only rebinds its value to the result of the next component",
-             floor=1)
+             floor=1, shape=True)
     col.assumptions += [
         "numpy view/copy table: basic slicing, .T, reshape, ravel, asarray, to_numpy, expand_dims, "
         "moveaxis, flip return views; advanced indexing, arithmetic, np.array, copy, astype, "
